@@ -238,7 +238,7 @@ def main():
         "hooks": {
             "guard": "cfg(fidget_verif)",
             "enable": "harness/.cargo/config.toml passes --cfg fidget_verif to every crate (RUSTFLAGS); the only hook is the schedule-point callback in fidget_core::render::CancelToken::is_cancelled",
-            "baseline_off_cmd": "cd /repo && cargo nextest run --workspace --no-fail-fast --test-threads 8 --offline || cargo test --workspace --no-fail-fast --offline",
+            "baseline_off_cmd": "cd /repo && (cargo nextest run --workspace --no-fail-fast --tool-config-file pb:/w/lib/nextest.toml --profile pb --test-threads 8 --offline || cargo test --workspace --no-fail-fast --offline)",
             "source_commits": hooks_commits,
             "add_only": True,
         },
